@@ -96,35 +96,13 @@ Definition chk (b : bool) (x : bytes) : res (pv obj) := if b then Ok (VB x) else
 Lemma len_map {A B} (f : A -> B) l : len (map f l) = len l.
 Proof. unfold len. rewrite map_length. reflexivity. Qed.
 
-Ltac known t := match goal with H : t = _ |- _ => rewrite H end.
-Ltac dbind :=
-  match goal with
-  | |- context [bind ?t _] =>
-    lazymatch t with
-    | context [bind _ _] => fail
-    | context [match _ with _ => _ end] => fail
-    | context [if _ then _ else _] => fail
-    | eval _ _ _ => fail
-    | exec _ _ _ _ => fail
-    | _ => idtac
-    end; first [known t | destruct t eqn:?]
-  end.
-Ltac dif :=
-  match goal with
-  | |- context [if ?t then _ else _] =>
-    lazymatch t with
-    | context [if _ then _ else _] => fail
-    | context [match _ with _ => _ end] => fail
-    | context [andb _ _] => fail
-    | _ => idtac
-    end; first [known t | destruct t eqn:?]
-  end.
-Ltac nats := change (Pos.to_nat 1) with 1%nat in *; change (Pos.to_nat 2) with 2%nat in *;
-             change (Pos.to_nat 4) with 4%nat in *; change (Pos.to_nat 8) with 8%nat in *.
-Ltac lk := repeat match goal with H : lookup ?x ?e = _ |- context [lookup ?x ?e] => rewrite H; cbn end.
-Ltac dpairs := repeat match goal with p : (_ * _)%type |- _ => destruct p end.
-Ltac tie1 := dpairs; cbn; lk; nats; rewrite ?to_bytes_le_eq, ?to_bytes_be_eq, ?app_nil_r, <- ?app_assoc, ?len_map; try reflexivity.
-Ltac tie := repeat (tie1; first [dbind | dif]); tie1.
+Lemma index_1 {A} (x y : A) l : index (x :: y :: l) 1 = Ok y.
+Proof.
+  unfold index. rewrite !len_cons. pose proof (len_nonneg l).
+  replace (1 <? 0) with false by reflexivity.
+  replace ((0 <=? 1) && (1 <? 1 + (1 + len l))) with true by lia. reflexivity.
+Qed.
+
 
 (* ---- the loops of Prelude/PyAst.v as stand-alone functions ---------------------------------------- *)
 Section Mirror.
@@ -219,7 +197,95 @@ Proof.
   rewrite exec_blk. destruct (exec_block W fuel body env1) as [o|e]; [|reflexivity].
   cbn [bind]. destruct o; try reflexivity; apply IH.
 Qed.
+
+Lemma comp_each_cons elt xs conds v r envc :
+  comp_each elt xs conds (v :: r) envc =
+  let* envb := bind_targets W xs v envc in
+  let* (keep, envd) := (fix allc (cs : list pexp) (en : penv) : res (bool * penv) :=
+     match cs with
+     | [] => Ok (true, en)
+     | c :: cr => let* (t, _, en1) := truthW en c in if t then allc cr en1 else Ok (false, en1)
+     end) conds envb in
+  if keep then let* (x, enve) := eval W envd elt in let* rest := comp_each elt xs conds r enve in Ok (x :: rest)
+  else comp_each elt xs conds r envd.
+Proof. reflexivity. Qed.
+Lemma for_each_nil fuel xs body env : for_each fuel xs body [] env = Ok (Next env).
+Proof. reflexivity. Qed.
+Lemma for_each_cons fuel xs body v r env :
+  for_each fuel xs body (v :: r) env =
+  let* envb := bind_targets W xs v env in
+  let* o := exec_block W fuel body envb in
+  match o with
+  | Next env' | Cont env' => for_each fuel xs body r env'
+  | Brk env' => Ok (Next env')
+  | Ret w => Ok (Ret w)
+  end.
+Proof. reflexivity. Qed.
+Lemma while_loop_S fuel c body n env :
+  while_loop fuel c body (S n) env =
+  let* (t, env1) := test W env c in
+  if t then let* o := exec_block W fuel body env1 in
+            match o with
+            | Next env' | Cont env' => while_loop fuel c body n env'
+            | Brk env' => Ok (Next env')
+            | Ret v => Ok (Ret v)
+            end
+  else Ok (Next env1).
+Proof. reflexivity. Qed.
 End Mirror.
+Global Arguments comp_each : simpl never.
+Global Arguments for_each : simpl never.
+Global Arguments while_loop : simpl never.
+
+Lemma join_bytes_nil (l : list bytes) : @join_bytes obj [] (map VB l) = Ok (concat l).
+Proof.
+  induction l as [|b r IH]; [reflexivity|].
+  cbn [map join_bytes]. destruct r as [|b' r'].
+  - cbn. rewrite app_nil_r. reflexivity.
+  - cbn [map] in *. rewrite IH. reflexivity.
+Qed.
+
+Lemma repeat_list_0 n : repeat_list n [0] = repeat 0 n.
+Proof. induction n as [|n IH]; [reflexivity|]. cbn. rewrite IH. reflexivity. Qed.
+
+(* ---- the tie tactic: cbn, then case analysis on the innermost stuck bind / if ------------------------ *)
+Ltac known t := match goal with H : t = _ |- _ => rewrite H end.
+Ltac dbind :=
+  match goal with
+  | |- context [bind ?t _] =>
+    lazymatch t with
+    | context [bind _ _] => fail
+    | context [match _ with _ => _ end] => fail
+    | context [if _ then _ else _] => fail
+    | eval _ _ _ => fail
+    | exec _ _ _ _ => fail
+    | comp_each _ _ _ _ _ _ => fail
+    | for_each _ _ _ _ _ _ => fail
+    | while_loop _ _ _ _ _ _ => fail
+    | to_bytes_le _ _ => fail
+    | to_bytes_be _ _ => fail
+    | _ => idtac
+    end; first [known t | destruct t eqn:?]
+  end.
+Ltac dif :=
+  match goal with
+  | |- context [if ?t then _ else _] =>
+    lazymatch t with
+    | context [if _ then _ else _] => fail
+    | context [match _ with _ => _ end] => fail
+    | context [andb _ _] => fail
+    | _ => idtac
+    end; first [known t | destruct t eqn:?]
+  end.
+Ltac nats := change (Pos.to_nat 1) with 1%nat in *; change (Pos.to_nat 2) with 2%nat in *;
+             change (Pos.to_nat 4) with 4%nat in *; change (Pos.to_nat 8) with 8%nat in *.
+Ltac lk := repeat match goal with H : lookup ?x ?e = _ |- context [lookup ?x ?e] => rewrite H; cbn end.
+Ltac dpairs := repeat match goal with p : (_ * _)%type |- _ => destruct p end.
+Ltac tie1 :=
+  dpairs; cbn; try unfold lift_fst; lk; nats;
+  repeat (progress rewrite ?len_map, ?len_nil, ?index_0, ?index_1, ?join_bytes_nil, ?repeat_list_0; cbn);
+  rewrite ?to_bytes_le_eq, ?to_bytes_be_eq, ?app_nil_r, <- ?app_assoc; try reflexivity.
+Ltac tie := repeat (tie1; first [dbind | dif]); tie1.
 
 (* ---- `for x in range(n)` against Model/RpcLoop.for_range ---------------------------------------- *)
 Lemma zrange_S n lo : @zrange obj (S n) lo = VI lo :: zrange n (lo + 1).
@@ -254,7 +320,7 @@ Proof.
   - rewrite for_range_eq in *. destruct (n <=? 0) eqn:En.
     + replace (Z.to_nat n) with 0%nat by lia. exists env. split; [reflexivity|assumption].
     + replace (Z.to_nat n) with (S (Z.to_nat (n - 1))) by lia. rewrite zrange_S.
-      cbn [for_each bind_targets bind]. specialize (Hbody s env (VI lo) HR).
+      rewrite for_each_cons. cbn [bind_targets bind]. specialize (Hbody s env (VI lo) HR).
       destruct (mbody s) as [[s' t]|e].
       * destruct Hbody as [env' [He HR']]. rewrite He. cbn [bind].
         apply IH; assumption.
@@ -262,13 +328,6 @@ Proof.
 Qed.
 
 (* ---- b"".join([x.pack() for x in xs]) ------------------------------------------------------------ *)
-Lemma join_bytes_nil (l : list bytes) : @join_bytes obj [] (map VB l) = Ok (concat l).
-Proof.
-  induction l as [|b r IH]; [reflexivity|].
-  cbn [map join_bytes]. destruct r as [|b' r'].
-  - cbn. rewrite app_nil_r. reflexivity.
-  - cbn [map] in *. rewrite IH. reflexivity.
-Qed.
 
 Lemma comp_pack mf {A : Type} (inj : A -> obj) (packf : A -> bytes) x :
   (forall a, rpc_pack (inj a) = Some (Ok (packf a))) ->
@@ -276,7 +335,7 @@ Lemma comp_pack mf {A : Type} (inj : A -> obj) (packf : A -> bytes) x :
                 = Ok (map (fun a => VB (packf a)) l).
 Proof.
   intros Hp. induction l as [|a r IH]; intros env; [reflexivity|].
-  cbn [map comp_each bind_targets bind]. cbn [eval]. cbn [lookup update]. rewrite String.eqb_refl.
+  cbn [map]. rewrite comp_each_cons. cbn [bind_targets bind]. cbn [eval]. cbn [lookup update]. rewrite String.eqb_refl.
   cbn. rewrite Hp. cbn. rewrite String.eqb_refl. rewrite IH. reflexivity.
 Qed.
 
